@@ -8,6 +8,7 @@ Model: Preflate/Model/Predict.lean (written once over the `Pred` interface), Mod
 Statements only; lemmas are in Preflate/Proofs/Predict*.lean.
 -/
 import Preflate.Proofs.Predict
+import Preflate.Proofs.Expands
 import Preflate.Gen.Consts
 namespace Preflate
 
@@ -35,6 +36,23 @@ theorem decStream_encStream (P : Pred H) (plain : Array Nat) (blocks : List Bloc
     (he : encStream P plain blocks pad = .ok ops) (rest : List Op) :
     decStream P plain (ops ++ rest) = .ok (blocks, pad, rest) :=
   Proofs.decStream_encStream P plain blocks pad hv hpad ops he rest
+
+/-- What the parser returns is a valid expansion of the plaintext it returns (the hypothesis of the
+    mirror theorem is what `parse` guarantees), for inputs below 512 MiB (the code converts the token
+    count of a block to u32). -/
+theorem parse_valid (bs : Bits) (hbs : bs.length < 2 ^ 32 - 1) (p : Parsed) (h : parseBits bs = .ok p) :
+    StreamValid p.plain p.blocks ∧ p.eofPadding < 256 :=
+  Proofs.parse_valid bs hbs p h
+
+/-- END TO END, for ANY predictor: if analysing an accepted stream yields corrections, then
+    reconstruction from those corrections followed by the block writer returns exactly the bytes
+    the parser consumed: recompress(analyze D) = D[..compressed_size] at the level of operations
+    (C10 carries operations to binary decisions; the bool coder is the remaining assumption). -/
+theorem recompress_analyze (P : Pred H) (d : List UInt8) (hd : d.length < 2 ^ 29) (p : Parsed)
+    (hp : parse d = .ok p) (ops : List Op) (he : encStream P p.plain p.blocks p.eofPadding = .ok ops) :
+    ∃ blocks pad, decStream P p.plain ops = .ok (blocks, pad, []) ∧
+      writeStream blocks pad = .ok (d.take (p.consumed d)) :=
+  Proofs.recompress_analyze P d hd p hp ops he
 
 /-- The context numbers the model uses are the declaration order of the enums in the source now. -/
 theorem context_numbers_match_source :
